@@ -380,11 +380,11 @@ func evalToken(line string) (out string, rd string) {
 		fmt.Sscan(f[1], &n)
 		return tokSharedArgs(n), line
 	case "go.cmd.history":
-		return cmdHistory(), line
+		return cmdHistory(len(f) > 1 && f[1] == "1"), line
 	case "go.ctor.wf":
-		return ctorWellFormed(), line
+		return ctorWellFormed(len(f) > 1 && f[1] == "1"), line
 	case "go.lit.nodes":
-		return literalNodes(), line
+		return literalNodes(len(f) > 1 && f[1] == "1"), line
 	case "go.lit.exact":
 		var i int
 		fmt.Sscan(f[1], &i)
